@@ -29,6 +29,7 @@ PRELUDE_ORDER = [
     "50_bytes.rs",
     "60_ctoption_repr.rs",
     "60_shares.rs",
+    "61_combine.rs",
     "70_misc.rs",
     "80_time.rs",
     "85_xof_leb.rs",
@@ -291,27 +292,35 @@ def classify(run):
 def map_failure(diag, layout, unit_path):
     """map a Verus diagnostic to (function record, clause id, repo location)"""
     unit_file = os.path.basename(unit_path)
-    lines = [l for (f, l, c) in diag["locs"] if os.path.basename(f) == unit_file]
-    lines += [l for (l, lab) in diag.get("labels", []) if l]
-    lines += diag.get("src_lines", [])
+    primary = [l for (f, l, c) in diag["locs"] if os.path.basename(f) == unit_file]
+    labelled = [l for (l, lab) in diag.get("labels", []) if l]
+    context = diag.get("src_lines", [])
+    lines = primary + labelled + context
     off = layout["extracted_offset"]
     items = layout["map"]["items"]
     hit_fn = None
     hit_clause = None
     where = None
-    for l in lines:
-        el = l - off
-        for it in items:
-            if it.get("kind") != "fn":
-                continue
-            if it["gen_from"] <= el <= it["gen_to"]:
-                if hit_fn is None:
-                    hit_fn = it
-                for c in it["clauses"]:
-                    if c["from"] <= el <= c["to"]:
-                        hit_clause = c
-                if where is None and el >= it["gen_body_from"]:
-                    where = el
+    # the clause is the one the PRIMARY span (then a labelled span) points at; lines that are only
+    # printed as context of the snippet must not decide the attribution
+    for group in (primary, labelled, context):
+        for l in group:
+            el = l - off
+            for it in items:
+                if it.get("kind") != "fn":
+                    continue
+                if it["gen_from"] <= el <= it["gen_to"]:
+                    if hit_fn is None:
+                        hit_fn = it
+                    if hit_clause is None:
+                        for c in it["clauses"]:
+                            if c["from"] <= el <= c["to"]:
+                                hit_clause = c
+                                break
+                    if where is None and el >= it["gen_body_from"]:
+                        where = el
+        if hit_clause is not None:
+            break
         # props section
     prop_hit = None
     for pf, o in layout["props_offsets"].items():
